@@ -22,7 +22,7 @@ from .. import common, rt, corpus, gen_wide
 
 PROP = 'C12'
 MODULES = ['Cnl2aspModel.Props.C12']
-THEOREMS = ['C12_history', 'C12_repeat', 'C12_state_after']
+THEOREMS = ['C12_history', 'C12_repeat', 'C12_state_after', 'step_flag', 'run_flag']
 RUNNER = os.path.join(common.VERIF, 'harness', 'history_runner.py')
 
 
@@ -139,7 +139,7 @@ def main(tier):
     jobs += [(refs[k], 0, True) for k in ref_keys]
     # hash-seed variation of the references themselves (a quarter of them, under two more seeds)
     seed_jobs = [(refs[k], s, False) for k in ref_keys[::4] for s in (1, 4242)]
-    # frame condition FlagBlind: check_syntax / cnl_to_json under both values of the auto-link flag
+    # check_syntax / cnl_to_json under both values of the auto-link flag (information: how sensitive the sampled texts are)
     fb_jobs = []
     for t in (acc[:10] + rej[:4]):
         for op in ('check_syntax', 'cnl_to_json'):
@@ -156,6 +156,7 @@ def main(tier):
     sres = res[len(hist) + len(ref_keys):len(hist) + len(ref_keys) + len(seed_jobs)]
     fres = res[len(hist) + len(ref_keys) + len(seed_jobs):]
     immut0 = None
+    flag_reported = False
     shapes = {}
     for (calls, alone, shape), r in zip(hist, hres):
         key = json.dumps(alone, sort_keys=True)
@@ -179,6 +180,11 @@ def main(tier):
             if im_pre != immut0 or im_post != immut0:
                 run.violation('frame/immutable', f'a module-level object / shared default changed around {c["op"]}: {im_post} vs {immut0}', replay)
                 break
+            # step_flag: the auto-link option is in force during the call only
+            if c['op'] != 'new' and rec['pre']['auto_link'] != rec['post']['auto_link'] and not flag_reported:
+                flag_reported = True
+                run.broke('corr', 'a call leaves Utility.AUTO_ENTITY_LINK changed (Api.step_flag)',
+                          {'history': calls, 'call': c, 'before': rec['pre']['auto_link'], 'after': rec['post']['auto_link']})
         # the table left behind is a function of the call alone (C12_state_after)
         same_flag = calls[-1]['op'] in ('compile', 'get_symbols') or got['pre']['auto_link'] == want['pre']['auto_link']
         if same_flag and got['post']['signatures'] != want['post']['signatures'] and calls[-1]['op'] != 'new':
@@ -191,14 +197,16 @@ def main(tier):
         if 'results' in r and 'results' in ref and r['results'][-1]['result'] != ref['results'][-1]['result']:
             run.violation(f'hashseed/{calls[-1]["op"]}', f'PYTHONHASHSEED={s} changes the result of {calls[-1]["op"]}',
                           {'calls': calls, 'seed': s, 'seed0': ref['results'][-1]['result'], 'this_seed': r['results'][-1]['result']})
-    # FlagBlind
+    # how many sampled texts give another check_syntax / cnl_to_json result under the other flag value (information)
+    flag_sensitive = 0
     for i in range(0, len(fb_jobs), 2):
         a, b = fres[i], fres[i + 1]
         run.count(('flagblind', json.dumps(fb_jobs[i][0], sort_keys=True)))
         if 'results' in a and 'results' in b and a['results'][-1]['result'] != b['results'][-1]['result']:
-            run.broke('corr', 'frame condition FlagBlind: the result of check_syntax / cnl_to_json depends on the auto-link flag',
-                      {'calls': fb_jobs[i][0], 'flag_true': a['results'][-1]['result'], 'flag_false': b['results'][-1]['result']})
+            # information only: the flag may influence these calls; what matters is that no call leaves it changed (step_flag)
+            flag_sensitive += 1
     run.coverage['history_shapes'] = shapes
+    run.coverage['texts_sensitive_to_the_auto_link_flag'] = flag_sensitive
     run.coverage['distinct_probes'] = len(refs)
     run.coverage['interpreters_started'] = len(all_jobs)
     run.sample({'history': hist[0][0], 'probe_alone': hist[0][1]})
